@@ -232,7 +232,8 @@ fn build_table(tb: &Tbl, t: &mut Tape, st: &mut Stats) -> Table {
 /// of tables absent
 pub fn printed_model(tb: &Tbl) -> Tbl {
     let mut out = Tbl::new(tb.kind);
-    let is_tbl = |n: &Node| matches!(n, Node::Aot(_)) || matches!(n, Node::Table(x) if x.kind != TblKind::Inline);
+    // (a table flagged as dotted is written as `key.sub = v` lines in its parent's body)
+    let is_tbl = |n: &Node| matches!(n, Node::Aot(_)) || matches!(n, Node::Table(x) if x.kind != TblKind::Inline && x.kind != TblKind::Dotted);
     for pass in [false, true] {
         for (k, n) in &tb.entries {
             if is_tbl(n) != pass {
@@ -343,12 +344,47 @@ fn prop(t: &mut Tape, st: &mut Stats) -> Result<(), Failure> {
             }
         }
     }
+    // layout flags a builder can set: a sub-table of plain values written through dotted keys, a
+    // table without values of its own left implicit (both are layout: the data stays the same)
+    let mut ftree = tree.clone();
+    if t.chance(1, 4) {
+        fn flag(tb: &mut Table, m: &mut Tbl, root: bool, t: &mut Tape, st: &mut Stats) {
+            for (k, n) in m.entries.iter_mut() {
+                let Some(item) = tb.get_mut(k) else { continue };
+                match (n, item) {
+                    (Node::Table(x), Item::Table(c)) if x.kind == TblKind::Std => {
+                        let plain = !x.entries.is_empty() && x.entries.iter().all(|(_, v)| !matches!(v, Node::Aot(_)) && !matches!(v, Node::Table(y) if y.kind != TblKind::Inline));
+                        if plain && t.chance(1, 2) {
+                            c.set_dotted(true);
+                            x.kind = TblKind::Dotted;
+                            st.class("flag.dotted");
+                        } else {
+                            flag(c, x, false, t, st);
+                        }
+                    }
+                    (Node::Aot(a), Item::ArrayOfTables(ca)) => {
+                        for (x, c) in a.iter_mut().zip(ca.iter_mut()) {
+                            flag(c, x, true, t, st);
+                        }
+                    }
+                    _ => {}
+                }
+            }
+            let own_values = m.entries.iter().any(|(_, v)| !matches!(v, Node::Aot(_)) && !matches!(v, Node::Table(y) if y.kind == TblKind::Std || y.kind == TblKind::Dotted));
+            let has_children = m.entries.iter().any(|(_, v)| matches!(v, Node::Table(y) if y.kind == TblKind::Std || y.kind == TblKind::Dotted) || matches!(v, Node::Aot(a) if !a.is_empty()));
+            if !root && !own_values && has_children && t.chance(1, 2) {
+                tb.set_implicit(true);
+                st.class("flag.implicit");
+            }
+        }
+        flag(doc.as_table_mut(), &mut ftree, true, t, st);
+    }
     let text = doc.to_string();
     st.sample(|| json!({"printed": text}));
     if doc.to_string() != text || doc.clone().to_string() != text {
         return Err(Failure::new("pure", format!("printing the same structure twice (or its clone) gives different text\n{text}"), case()));
     }
-    let want = printed_model(&tree);
+    let want = printed_model(&ftree);
     let re = text.parse::<DocumentMut>().map_err(|e| Failure::new("valid", format!("printed text does not parse: {e}\n---\n{text}\n---"), case()))?;
     match tomlref::decode(&text).0 {
         Verdict::Valid(_) | Verdict::Limit(_) => {}
